@@ -119,6 +119,9 @@ def gen_case(rng, tier, avoid):
                 break
         if later:
             writes = [gen.write_op(spec, path='out1.dlis')] + later + [w2]
+    if rng.random() < 0.15:
+        # the application's logging configuration: the library's warnings silenced (its logger at ERROR, or logging disabled)
+        hist = [{'op': 'set_log', 'mode': rng.choice(['error', 'disabled'])}] + hist
     return {'scenario': {'env': {'tz': tz}, 'history': hist + writes},
             'params': {'noise': noise, 'defaults': defaults, 'later': bool(later)}}
 
